@@ -48,6 +48,19 @@ PROPS["C04"] = {
     "assumptions": [],
 }
 
+C06_SHARDS = (["shape=%d;opkind=0;op=%d" % (s_, o) for s_ in range(6) for o in range(9)]
+              + ["shape=%d;opkind=1" % s_ for s_ in range(6)])
+
+PROPS["C06"] = {
+    "claim": "no panic edge is feasible in a manipulation call on live nodes, and on every path that returns Err the "
+             "complete read-back (structure, values, liveness of every handle) is unchanged",
+    "harnesses": [H("h_c06_step", shards={"quick": C06_SHARDS, "thorough": C06_SHARDS}, budget=(900, 3000))],
+    "bounds": {"quick": "6 start forests (5-8 nodes, symbolic contents), 1 call of 22 operations x every tuple of live nodes "
+                        "of every kind", "thorough": "same"},
+    "outside": "forests other than the catalogue; element-only accessors on non-elements (documented panics)",
+    "assumptions": [],
+}
+
 PROPS["DBG"] = {
     "claim": "debug probes", "harnesses": [H("h_probe_tree"), H("h_probe_tostring"), H("h_probe_parse")],
     "bounds": {"quick": "-", "thorough": "-"}, "outside": "", "assumptions": [],
